@@ -92,6 +92,12 @@ class ClassProgram:
             k.append("    public function g(C%d v) -> string { return \"g(C%d)\"; }" % (self.depth - 1, self.depth - 1))
         k.append("}")
         self.decls.append("\n".join(k))
+        # a static initialiser that constructs an object of another top-level class (declared before or after)
+        self.static_new = self.rng.random() < 0.5
+        if self.static_new:
+            self.sn_val = self.rng.randrange(1, 50)
+            self.decls.append("class Reg { public static Item first = new Item(%d); public constructor() -> Reg = default; public static function get() -> int { return first.v * 2; } }" % self.sn_val)
+            self.decls.append("class Item { public int v; public constructor(int v) -> Item { this.v = v; return this; } }")
         if self.churn:
             self.decls.append("class Junk { public int v; public Junk other; public constructor(int v) -> Junk { this.v = v; return this; } }")
             self.decls.append("function churn(int n) -> int { int i = 0; while (i < n) { Junk a = new Junk(i); Junk b = new Junk(i + 1); "
@@ -117,6 +123,9 @@ class ClassProgram:
         r = self.rng
         m, e = self.main, self.expected
         m.append("K k = new K();")
+        if self.static_new:
+            m.append("echo(Reg.get());")
+            e.append("%d" % (2 * self.sn_val))
         nobj = r.randrange(1, 4)
         for j in range(nobj):
             dyn = r.randrange(self.depth)
@@ -199,7 +208,8 @@ class ClassProgram:
     def model_line(self):
         hier = ";".join("%d,%d,%d,%d" % (1 if (c["overrides"] or i == 0) else 0, 1 if c["calls_super"] else 0, c["field"], 1 if c["dtor"] else 0)
                         for i, c in enumerate(self.cls))
-        return "obj %s %s" % (hier, ";".join(self.actions) if self.actions else "-")
+        pre = ["ec,%d" % (2 * self.sn_val)] if self.static_new else []
+        return "obj %s %s" % (hier, ";".join(pre + self.actions) if (pre + self.actions) else "-")
 
     def n_decls(self):
         return len(self.decls) + 1
